@@ -68,3 +68,16 @@ Theorem C01_example :
   (exists s', go_call 20 example_fn [LitV (LitInt 40); LitV (LitBool false)] = OReturn (LitV (LitInt 81)) s').
 Proof. exact example_fn_accepted_and_returns. Qed.
 Print Assumptions C01_example.
+
+(* the whole definition: the value goose emits for a function of the fragment
+   (rec: "F" "p1" ... "pn" := body), applied to the argument values, evaluates
+   to the value Go returns, in the store Go ends in (parameter names distinct
+   from each other and from the function's name, at least one parameter) *)
+Theorem C01_core_fragment_functions : forall n fn f args v s',
+  tr_func fn = Some f ->
+  NoDup (f_name fn :: map fst (f_params fn)) -> f_params fn <> [] ->
+  length args = length (f_params fn) ->
+  go_call n fn args = OReturn v s' ->
+  exists m, eval m (fold_left App (map Val args) (Val f)) state0 = RVal v s'.
+Proof. exact func_correct. Qed.
+Print Assumptions C01_core_fragment_functions.
